@@ -61,10 +61,10 @@ def flat(v):
     return {"shape": [], "v": [int(round(float(v)))]}
 
 
-NEEDS = {"u_f": ["u", "f"], "u_g": ["u", "g"], "echo": ["u", "t", "f", "g"], "vec": ["u", "f", "t"],
+NEEDS = {"dut": ["u", "t", "f"], "u_f": ["u", "f"], "u_g": ["u", "g"], "echo": ["u", "t", "f", "g"], "vec": ["u", "f", "t"],
          "int": ["u", "u_integral", "g"], "intvec": ["u", "u_integral", "x", "t"], "intx": ["u", "u_integral", "x_integral"],
          "ritz": ["u", "g"], "pen": ["kappa"], "ut1": ["u", "t"]}
-BODY = {"u_f": "u - f", "u_g": "u - g", "echo": "2 * u + 3 * t + 5 * f + 7 * g", "vec": "_torch.cat([u - f, u + t], dim=-1)",
+BODY = {"dut": "_grad(u, t) - f", "u_f": "u - f", "u_g": "u - g", "echo": "2 * u + 3 * t + 5 * f + 7 * g", "vec": "_torch.cat([u - f, u + t], dim=-1)",
         "int": "u - _torch.sum(u_integral, dim=1, keepdim=True) + g",
         "intvec": "_torch.cat([u - _torch.sum(u_integral, dim=1, keepdim=True), x + t], dim=-1)",
         "intx": "u - _torch.sum(u_integral * x_integral, dim=1, keepdim=True)",
@@ -76,7 +76,7 @@ def mk_res(kind, rev, log):
     if rev:
         names.reverse()
     src = "def res(%s):\n    _log.append({k: v for k, v in locals().items()})\n    return %s\n" % (", ".join(names), BODY[kind])
-    ns = {"_log": log, "_torch": torch}
+    ns = {"_log": log, "_torch": torch, "_grad": tp.utils.grad}
     exec(src, ns)
     return ns["res"]
 
